@@ -72,6 +72,20 @@ class RevolveCheckpointSchedule(CheckpointSchedule):
         write_ics = False
         adj_deps = False
 
+        # Operations which read a checkpoint for the last time before it is
+        # written again (or for good). The checkpoint is then moved rather
+        # than copied, so that it does not outlive its use.
+        last_read = set()
+        read_later = set()
+        for j in range(len(self._schedule) - 1, -1, -1):
+            cp_action, (n_0, _, storage) = _convert_action(self._schedule[j])
+            if cp_action in ("Read", "Read_memory", "Read_disk"):
+                if (storage, n_0) not in read_later:
+                    last_read.add(j)
+                    read_later.add((storage, n_0))
+            elif cp_action in ("Write", "Write_memory", "Write_disk"):
+                read_later.discard((storage, n_0))
+
         i = 0
         while i < len(self._schedule):
             cp_action, (n_0, n_1, storage) = _convert_action(self._schedule[i])
@@ -85,7 +99,7 @@ class RevolveCheckpointSchedule(CheckpointSchedule):
                         raise InvalidActionIndex
                     write_ics = True
                     adj_deps = False
-                    snapshots.add(w_n0)
+                    snapshots.add((w_storage, w_n0))
                 elif (w_cp_action == "Write_Forward"
                       or w_cp_action == "Write_Forward_memory"):
                     if w_n0 != n_1:
@@ -112,8 +126,8 @@ class RevolveCheckpointSchedule(CheckpointSchedule):
                   or cp_action == "Read_memory"
                   or cp_action == "Read_disk"):
                 self._n = n_0
-                if n_0 == self._max_n - self._r - 1:
-                    snapshots.remove(n_0)
+                if i in last_read:
+                    snapshots.remove((storage, n_0))
                     yield Move(n_0, storage, StorageType.WORK)
                 else:
                     yield Copy(n_0, storage, StorageType.WORK)
